@@ -32,6 +32,7 @@ type ConfigCase struct {
 	Valid      bool              `json:"valid"`
 	MustReject bool              `json:"must_reject"`
 	Yaml       string            `json:"yaml"`
+	KeyLog     bool              `json:"keylog"` // the application is created with a TLS key log path
 }
 
 func RunConfig(prefix, in, out string) error {
@@ -86,7 +87,11 @@ func RunConfig(prefix, in, out string) error {
 		} else if rerr == nil && cfg != nil {
 			rec["accepted"] = true
 			ctx, cancel := context.WithTimeout(context.Background(), 40*time.Second)
-			cmd := exec.CommandContext(ctx, self, "cfgstart", path, supi)
+			keylog := ""
+			if c.KeyLog {
+				keylog = filepath.Join(dir, fmt.Sprintf("keylog%d", i))
+			}
+			cmd := exec.CommandContext(ctx, self, "cfgstart", path, supi, keylog)
 			outb, err := cmd.CombinedOutput()
 			timedOut := ctx.Err() == context.DeadlineExceeded
 			cancel()
@@ -103,6 +108,11 @@ func RunConfig(prefix, in, out string) error {
 				!strings.Contains(string(outb), "fatal error:") && !strings.Contains(string(outb), "[FATA]"):
 				// the process stayed alive and reported an ordinary error (e.g. an address it cannot listen on)
 				rec["start"] = "notup"
+			case strings.Contains(string(outb), "online update not served") && !strings.Contains(string(outb), "panic:") &&
+				!strings.Contains(string(outb), "fatal error:") && !strings.Contains(string(outb), "[FATA]"):
+				// everything came up, the process stayed alive, but the charging request was refused (a transport the
+				// environment does not provide)
+				rec["start"] = "notserved"
 			default:
 				rec["start"] = "crash"
 			}
@@ -116,13 +126,13 @@ func RunConfig(prefix, in, out string) error {
 }
 
 // CfgStart runs in the child process.  Exit 0: the components came up (or refused gracefully with an error).
-func CfgStart(path, supi string) error {
+func CfgStart(path, supi, keylog string) error {
 	cfg, err := factory.ReadConfig(path)
 	if err != nil {
 		return fmt.Errorf("child: config rejected: %v", err)
 	}
 	factory.ChfConfig = cfg
-	app, err := service.NewApp(context.Background(), cfg, "")
+	app, err := service.NewApp(context.Background(), cfg, keylog)
 	if err != nil {
 		fmt.Println("graceful: NewApp error:", err)
 		return nil
@@ -131,7 +141,7 @@ func CfgStart(path, supi string) error {
 	wg.Add(2)
 	rf.OpenServer(context.Background(), &wg)
 	abmf.OpenServer(context.Background(), &wg)
-	srv, err := sbi.NewServer(app, "")
+	srv, err := sbi.NewServer(app, keylog)
 	if err != nil {
 		fmt.Println("graceful: NewServer error:", err)
 		return nil
